@@ -1482,6 +1482,12 @@ class EvolveAppTask(BaseEvolutionTask):
                     else:
                         imports.add(import_str)
 
+        if any('models.' in line for line in mutation_lines):
+            # Values such as field types, Q objects, or constraint types
+            # are written relative to the models module, whether or not
+            # there's an AddField.
+            imports.add('from django.db import models')
+
         imports.add('from django_evolution.mutations import %s'
                     % ', '.join(sorted(mutation_types)))
 
